@@ -74,16 +74,31 @@ def old_bytes(kind):
     raise ValueError(kind)
 
 
+def other_filesystem():
+    """A writable directory on a DIFFERENT file system than the system's temporary directory
+    (tmpfs /dev/shm here), or None.  Used for the data directory, so that anything the code keeps
+    in the temp dir and later moves into place has to cross a file-system boundary (EXDEV)."""
+    for cand in ("/dev/shm", "/run/shm", "/var/tmp"):
+        try:
+            if os.path.isdir(cand) and os.access(cand, os.W_OK) and \
+                    os.stat(cand).st_dev != os.stat(tempfile.gettempdir()).st_dev:
+                return cand
+        except OSError:
+            pass
+    return None
+
+
 class Scenario:
-    def __init__(self, action, n, old_kind, salt=0):
-        self.action, self.n, self.old_kind, self.salt = action, n, old_kind, salt
+    def __init__(self, action, n, old_kind, salt=0, other_fs=False):
+        self.action, self.n, self.old_kind, self.salt, self.other_fs = action, n, old_kind, salt, other_fs
         self.old = old_bytes(old_kind)
 
     def key(self):
-        return {"action": self.action, "n": self.n, "old": self.old_kind}
+        return {"action": self.action, "n": self.n, "old": self.old_kind,
+                "data_dir": "other file system than the temp dir" if self.other_fs else "same file system as the temp dir"}
 
     def fresh_dir(self):
-        root = Path(os.path.realpath(tempfile.mkdtemp(prefix="verif-c11-")))
+        root = Path(os.path.realpath(tempfile.mkdtemp(prefix="verif-c11-", dir=other_filesystem() if self.other_fs else None)))
         d = root / "core"
         d.mkdir()
         if self.old is not None:
@@ -154,6 +169,13 @@ def save_stage(chk):
     quick = chk.tier == "quick"
     scenarios = [Scenario("dump", 3, "garbage"), Scenario("dump", 0, "absent"),
                  Scenario("dump", 220, "previous"), Scenario("teardown", 0, "garbage")]
+    if other_filesystem():
+        # data dir on another file system than the temp dir: a move from the temp dir cannot be a rename
+        scenarios += [Scenario("dump", 3, "garbage", other_fs=True), Scenario("dump", 220, "previous", salt=8, other_fs=True),
+                      Scenario("teardown", 0, "previous", other_fs=True)]
+        chk.dist("scenario:data-dir-on-other-filesystem", 3)
+    else:
+        chk.notes.append("no second writable file system found: the cross-device scenarios were skipped")
     if not quick:
         scenarios += [Scenario("dump", n, o, salt=s) for n, o, s in
                       [(1, "empty", 1), (40, "garbage", 2), (300, "absent", 3), (1500, "garbage", 4),
@@ -218,7 +240,7 @@ def save_stage(chk):
         payload = expected_payload(sc.spec("x"))
         got = gunzip_or_none(new or b"")
         st = "new" if got is not None and (payload is None or got == payload) else "bad"
-        chk.count(1, nontrivial_key=("base", sc.action, sc.n, sc.old_kind))
+        chk.count(1, nontrivial_key=("base", sc.action, sc.n, sc.old_kind, sc.other_fs))
         chk.dist(f"baseline:{sc.action}")
         chk.dist(f"writes_in_trace:{min(sum(1 for o in tr['ops'] if o[0] == 'write'), 3)}")
         chk.sample({**sc.key(), "trace": ft.describe(tr["ops"]), "exit": base["status"]})
@@ -272,7 +294,7 @@ def save_stage(chk):
                 "crash_then_load", {"call": sc.action, "inject": "crash" if what == "kill" else "fault", "at": att["kind"]},
                 f"{what} at call #{ai} ({att['kind']}), then storage.load: the restored session is neither the one the old "
                 "file gave nor the new one", {**case, "loaded": repr(loaded)[:200]})
-        chk.count(1, nontrivial_key=(what == "kill", sc.action, sc.n, sc.old_kind, ai))
+        chk.count(1, nontrivial_key=(what == "kill", sc.action, sc.n, sc.old_kind, ai, sc.other_fs))
         chk.dist("crash" if what == "kill" else "fault")
         chk.dist(f"at:{att['kind']}")
         add_listing(sc, r, label)
